@@ -154,6 +154,7 @@ type env struct {
 	subjOK  bool // a manifest with a subject was pushed successfully
 	seenLog int
 	chunkedPut bool
+	collision  bool // a pool manifest is byte-identical to a client-maintained referrers index
 }
 
 func (v *env) routeManifest(mt string) bool {
@@ -354,6 +355,14 @@ func (v *env) checkState() string {
 				}
 				wantTags[tag] = target
 				current[target] = true
+				if _, ok := v.exp.manifests[target]; ok {
+					// Unjudged shape: the referrers index the client maintains is
+					// byte-identical to a manifest of the pool (an index listing
+					// just that referrer, no annotations). In a content-addressed
+					// registry they are one object; removing the "old index" then
+					// removes the user's manifest too — inherent to the tag schema.
+					v.collision = true
+				}
 				m, ok := r.Manifests[target]
 				if !ok {
 					bad("referrers tag %s points to a missing manifest", tag[:19])
